@@ -739,9 +739,9 @@ fn run_optional_escapes(ch: &mut Chooser) -> Outcome {
 }
 
 pub fn run(env: &Env, known: &Known, started: Instant, replayed: u64, replay_violations: Vec<Violation>) -> i32 {
-    let cfg = ChoiceRun { env, pid: PID, part: "constants", cases: env.tier.pick(24_000, 700_000), max_len: 1500, known };
+    let cfg = ChoiceRun { env, pid: PID, part: "constants", cases: env.tier.pick(96_000, 700_000), max_len: 1500, known };
     let mut rr = run_choices(&cfg, run_valid);
-    let cfg = ChoiceRun { env, pid: PID, part: "undefined-and-typing", cases: env.tier.pick(12_000, 300_000), max_len: 200, known };
+    let cfg = ChoiceRun { env, pid: PID, part: "undefined-and-typing", cases: env.tier.pick(48_000, 300_000), max_len: 200, known };
     let r2 = run_choices(&cfg, run_invalid);
     rr.stats.merge(r2.stats);
     rr.violations.extend(r2.violations);
@@ -749,7 +749,7 @@ pub fn run(env: &Env, known: &Known, started: Instant, replayed: u64, replay_vio
     let r3 = run_choices(&cfg, run_relational_chain_probe);
     rr.stats.merge(r3.stats);
     rr.violations.extend(r3.violations);
-    let cfg = ChoiceRun { env, pid: PID, part: "optional-escapes", cases: env.tier.pick(6_000, 100_000), max_len: 64, known };
+    let cfg = ChoiceRun { env, pid: PID, part: "optional-escapes", cases: env.tier.pick(24_000, 200_000), max_len: 64, known };
     let r4 = run_choices(&cfg, run_optional_escapes);
     rr.stats.merge(r4.stats);
     rr.violations.extend(r4.violations);
